@@ -1,7 +1,89 @@
-(** C25 -- the TL1 printer round-trips through the parser. *)
-From TLV Require Import Canon.CanonModel Canon.CanonProofs.
+(** C25 -- the canonical schema listing (tl2gen --language=canonical) is faithful to the schema.
+
+    Full statement: parse1 (terminate (canon_line c)) ~ c on names, effective tag, template arguments, fields and
+    result type, one line per combinator.  Refuted for fields/results (F12): [C25_canon_line_refuted*].
+    Proved in full: one line per listed combinator after the five fixed lines; every line determines (by a verified
+    parser of the line head) the annotations up to the stable sort by flag, the constructor name, the effective
+    tag and the template arguments, and carries the text the implicit tag is the CRC32 of.
+    Re-parsing of whole lines by the real parser is the oracle of lib/checks/C25.py. *)
+From Coq Require Import Permutation.
+From TLV Require Import Canon.CanonModel Canon.CanonProofs Canon.CanonParse.
 Open Scope N_scope.
 
-Theorem C25_placeholder : forall c, c_explicit c = true -> tag c = c_id c.
-Proof. exact tag_explicit_verbatim. Qed.
-Print Assumptions C25_placeholder.
+Theorem C25_listing_lines : forall l,
+  listing l = builtin_lines ++
+    flat_map (fun fc => canon_line (snd fc) ++ s_comment ++ fst fc ++ [ch_nl]) (filter listed l).
+Proof. exact listing_lines. Qed.
+Print Assumptions C25_listing_lines.
+
+Theorem C25_listing_line_count : forall l,
+  (forall f c, In (f, c) l -> wf_comb c = true /\ ~ In ch_nl f) ->
+  nl_count (listing l) = (5 + length (filter listed l))%nat.
+Proof. exact listing_line_count. Qed.
+Print Assumptions C25_listing_line_count.
+
+Theorem C25_line_is_one_line : forall c, wf_comb c = true -> ~ In ch_nl (canon_line c).
+Proof. exact canon_line_one_line. Qed.
+Print Assumptions C25_line_is_one_line.
+
+(** the head of the line parses back to annotations (sorted), name, stored tag and template arguments *)
+Theorem C25_line_head_parses : forall c, wf_comb c = true ->
+  parse_head (canon_line c) = Some (mod_sort (c_mods c), c_name c, c_id c, c_targs c, canon_tail c).
+Proof. exact parse_head_ok. Qed.
+Print Assumptions C25_line_head_parses.
+
+(** the stored tag is the effective tag (explicit, or CRC32 of the canonical form) *)
+Theorem C25_line_carries_effective_tag : forall c, parsed_id c = true -> c_id c = tag c.
+Proof. exact parsed_id_tag. Qed.
+Print Assumptions C25_line_carries_effective_tag.
+
+Theorem C25_line_determines_head : forall c1 c2, wf_comb c1 = true -> wf_comb c2 = true ->
+  canon_line c1 = canon_line c2 ->
+  mod_sort (c_mods c1) = mod_sort (c_mods c2) /\ c_name c1 = c_name c2 /\ tag c1 = tag c2 /\
+  c_targs c1 = c_targs c2 /\ canon c1 = canon c2.
+Proof. exact canon_line_head_inj. Qed.
+Print Assumptions C25_line_determines_head.
+
+Theorem C25_annotations_kept : forall l, Permutation (mod_sort l) l.
+Proof. exact mod_sort_perm. Qed.
+Print Assumptions C25_annotations_kept.
+
+Theorem C25_listing_tag_recomputable : forall c, wf_comb c = true -> c_explicit c = false ->
+  exists ms nm id ts tail,
+    parse_head (canon_line c) = Some (ms, nm, id, ts, tail) /\
+    id = crc32 (print_name nm ++ [ch_space] ++
+                flat_map (fun x => ta_name x ++ (if ta_isnat x then s_nat_sp else s_type_sp)) ts ++ tail).
+Proof. exact listing_tag_recomputable. Qed.
+Print Assumptions C25_listing_tag_recomputable.
+
+(** F12: fields and result types are not recoverable from the line *)
+Theorem C25_canon_line_refuted :
+  exists c1 c2, wf_comb c1 = true /\ wf_comb c2 = true /\
+    length (c_fields c1) = 1%nat /\ length (c_fields c2) = 3%nat /\ canon_line c1 = canon_line c2.
+Proof. exact canon_line_refuted. Qed.
+Print Assumptions C25_canon_line_refuted.
+
+Theorem C25_canon_line_refuted_excl :
+  exists c1 c2, wf_comb c1 = true /\ wf_comb c2 = true /\ c1 <> c2 /\
+    c_fields c2 = map (set_excl false) (c_fields c1) /\ canon_line c1 = canon_line c2.
+Proof. exact canon_line_refuted_excl. Qed.
+Print Assumptions C25_canon_line_refuted_excl.
+
+(* the five fixed lines are the listing lines of the builtin types with their CRC32 tags *)
+Definition ex_builtin (nm ty : str) : comb :=
+  let c := Comb true false [] (Name [] nm) 0 false [] [] (TypeDecl (Name [] ty) []) w_empty_tr in
+  Comb true false [] (Name [] nm) (gen_crc c) false [] [] (TypeDecl (Name [] ty) []) w_empty_tr.
+Example builtin_lines_are_listing_lines :
+  builtin_lines = flat_map (fun c => canon_line c ++ [ch_nl])
+    [ex_builtin s_int [73; 110; 116]; ex_builtin s_long [76; 111; 110; 103]; ex_builtin s_float [70; 108; 111; 97; 116];
+     ex_builtin s_double [68; 111; 117; 98; 108; 101]; ex_builtin s_string [83; 116; 114; 105; 110; 103]].
+Proof. vm_compute. reflexivity. Qed.
+(* dictionary#1f4c618f {t:Type} %Vector %DictionaryField t = Dictionary t *)
+Example ex_f12_line : canon_line w_dict1 =
+  [100;105;99;116;105;111;110;97;114;121;35;49;102;52;99;54;49;56;102;32;123;116;58;84;121;112;101;125;32;
+   37;86;101;99;116;111;114;32;37;68;105;99;116;105;111;110;97;114;121;70;105;101;108;100;32;116;32;61;32;
+   68;105;99;116;105;111;110;97;114;121;32;116].
+Proof. vm_compute. reflexivity. Qed.
+Example ex_head : parse_head (canon_line w_dict1) =
+  Some ([], Name [] w_str_dictionary, 525099407, [TArg [116] false], canon_tail w_dict1).
+Proof. vm_compute. reflexivity. Qed.
